@@ -1,8 +1,20 @@
 (* Hand model of COSPricer._pricing_formula and COSPricer.density (rpylib/numerical/cosmethod.py), real part taken
-   termwise:   price = df * sum_{k<n} w_k * A_k * V_k   with  w_0 = 1/2, w_k = 1  (self._weights) and
-   A_k = Re( cf(u_k) * exp(-i u_k log_spot) * exp(i u_k (x - a)) ),  u_k = k pi/(b-a);  V_k the payoff coefficients.
-   COSPricer.density reconstructs from the same numbers  f_N(y) = sum_{k<n} w_k * A_k * 2/(b-a) * cos(k pi (y-a)/(b-a)).
-   Tied to the implementation by Interval case lemmas on small n (A_k fed as data). *)
+   termwise.  With w_0 = 1/2, w_k = 1 (self._weights) and u_k = k pi/(b-a):
+
+     _pricing_formula(x, T, a, b, V) = df * sum_{k<n} w_k * A_k * V_k ,   A_k = Re( cf(u_k) e^{-i u_k log_spot} e^{i u_k (x - a)} )
+     (x = log(S/K); V_k the payoff coefficients)                                                        -> cos_sum
+
+     density(T, s)  (cosmethod.py:72-82):  the window is shifted by log_spot, a' = a + x0, b' = b + x0, and
+       density = sum_{k<n} cos(u_k (ln s - a')) * w_k * 2/(b'-a') * B_k / s ,  B_k = Re( cf(u_k) e^{-i a' u_k} )   -> cos_density_impl
+
+   cos_density n A a b y = sum_k w_k A_k 2/(b-a) cos(u_k (y - a)) is the cosine series in the variable y; it is
+     (i)  with A := B, window [a',b'] and y := ln s : exactly s * density(T, s)   (lemma cos_density_impl_eq), and
+     (ii) with the pricing numbers A_k(x) and window [a,b] : the series the pricing sum integrates the payoff against
+          (theorem C18_cos_is_integral), in the variable y = log(S_T/K).
+   (i) and (ii) use the same characteristic-function values but DIFFERENT windows unless K = S (x = 0, where A_k = B_k):
+   for K <> S the series of (ii) is not COSPricer.density -- the pricer never shifts its window with the strike.
+   Both cos_sum and cos_density_impl are tied to the implementation by Interval case lemmas on pricers with 3-5 terms
+   (A_k resp. B_k fed as data). *)
 From Coq Require Import Reals.
 From RV Require Import Base.RB Gen.GenC18Cos Model.Cos.
 Open Scope R_scope.
@@ -12,3 +24,7 @@ Definition cos_weight (k : nat) : R := match k with O => 1 / 2 | S _ => 1 end.
 Definition cos_sum (n : nat) (A V : nat -> R) : R := sum_f_R0 (fun k => cos_weight k * A k * V k) n.
 Definition cos_density (n : nat) (A : nat -> R) (a b y : R) : R :=
   sum_f_R0 (fun k => cos_weight k * A k * (2 / (b - a) * cosk (INR k) a b y)) n.
+(* line by line: cst = ks*pi/(b-a) [shifted a, b]; fk = 2/(b-a)*B; cosines = cos((log s - a)*cst); sum(cosines*weights*fk)/s *)
+Definition cos_density_impl (n : nat) (B : nat -> R) (a b x0 s : R) : R :=
+  let a' := a + x0 in let b' := b + x0 in
+  sum_f_R0 (fun k => cos ((ln s - a') * (INR k * PI / (b' - a'))) * cos_weight k * (2 / (b' - a') * B k)) n / s.
